@@ -31,7 +31,7 @@ func (check) Cases(tier string) int {
 }
 
 func (check) Rule() string {
-	return "each case fixes one logical call and repeats it over permuted insertion orders of EVERY map in its input (all permutations up to 3 keys, else 8 random ones) x 12 repetitions each, rebuilding all inputs every time; the set of outcome classes (canonical data on success, root error reason on failure) must have size 1. Call kinds: NewFrom of partially flattened trees whose keys overlap after dotted expansion; NewFrom of inputs spelling one setting twice (dotted+nested, dotted below a primitive, dotted list position + list); chains of merges under all policies; Unpack (map, struct of strings, per-setting String, FlattenedKeys) of worlds whose settings reference each other (chains, diamonds, repeated uses, cycles absorbed by resolvers, objects). The keyorder hook records the enumeration order the runtime actually used in every loop over a map; a case whose input has a map with >= 2 keys but showed fewer than 2 distinct enumeration schedules earns no credit (inconclusive). Non-trivial = at least 2 distinct schedules observed; distinct = distinct (kind, input)."
+	return "each case fixes one logical call and repeats it over permuted insertion orders of EVERY map in its input (all permutations up to 3 keys, else 8 random ones) x 12 repetitions each, rebuilding all inputs every time; the set of outcome classes (canonical data on success, root error reason on failure) must have size 1. Call kinds: NewFrom of partially flattened trees whose keys overlap after dotted expansion; NewFrom of inputs spelling one setting twice (dotted+nested, dotted below a primitive, dotted list position + list; random pairs of a short key holding primitive/nil/list/object and a dotted key 1-3 name or index segments below it holding a primitive or nil); chains of merges under all policies; one Merge (all policies, VarExp) onto a destination holding references to objects and lists, where the source brings values both for the settings holding the references and for the settings referenced; Unpack (map, struct of strings, per-setting String, FlattenedKeys) of worlds whose settings reference each other (chains, diamonds, repeated uses, cycles absorbed by resolvers, objects). The keyorder hook records the enumeration order the runtime actually used in every loop over a map; a case whose input has a map with >= 2 keys but showed fewer than 2 distinct enumeration schedules earns no credit (inconclusive). Non-trivial = at least 2 distinct schedules observed; distinct = distinct (kind, input)."
 }
 
 func (check) Assumptions() []string {
@@ -161,7 +161,7 @@ func errClass(err error) string {
 func (check) Run(seed int64, tier string, idx int, verbose bool) harness.Result {
 	res := harness.NewR(idx)
 	r := rand.New(rand.NewSource(harness.Mix(seed, "C09", idx)))
-	kinds := []string{"flattened-overlap", "duplicate", "merge-chain", "world", "world"}
+	kinds := []string{"flattened-overlap", "duplicate", "merge-chain", "world", "world", "merge-onto-references"}
 	kind := kinds[idx%len(kinds)]
 	var desc string
 	var runs map[string]runner
@@ -191,7 +191,40 @@ func (check) Run(seed int64, tier string, idx int, verbose bool) harness.Result 
 		k1, k2 := gen.Keys[r.Intn(3)], gen.Keys[r.Intn(3)]
 		var in *model.Node
 		var shape string
-		switch r.Intn(6) {
+		switch r.Intn(9) {
+		case 6, 7, 8:
+			// random pair of spellings: a short key holding a primitive, nil,
+			// list or object and a dotted key leading 1-3 segments (names and
+			// list positions) below it holding a primitive or nil
+			shape = "random-two-spellings"
+			var short *model.Node
+			sk := r.Intn(6)
+			switch sk {
+			case 0:
+				short = model.P([]interface{}{uint64(5), "s", true}[r.Intn(3)])
+			case 1:
+				short = model.Nil()
+			case 2:
+				short = model.List(model.P("other"))
+			case 3:
+				short = model.Dict().Set(k2, model.P("other"))
+			case 4:
+				short = model.Dict().Set(k2, model.Dict().Set("z", model.P("other")))
+			default:
+				short = model.List(model.Dict().Set(k2, model.P("other")), model.P(uint64(2)))
+			}
+			segs := []string{k2, "z", "0", "1", "0"}
+			path := k1
+			n := 1 + r.Intn(3)
+			for i := 0; i < n; i++ {
+				path += "." + segs[r.Intn(len(segs))]
+			}
+			dv := model.P(leaf)
+			if r.Intn(3) == 0 {
+				dv = model.Nil()
+			}
+			shape += fmt.Sprintf(":short-kind-%d:depth-%d", sk, n)
+			in = model.Dict().Set(path, dv).Set(k1, short)
 		case 4:
 			// not a duplicate: one spelling only says "nothing here" (nil)
 			shape = "dotted-nil-and-nested-value"
@@ -216,7 +249,8 @@ func (check) Run(seed int64, tier string, idx int, verbose bool) harness.Result 
 		if r.Intn(2) == 0 {
 			in.Set("pad", model.P("p"))
 		}
-		kind = "duplicate:" + shape
+		kind = "duplicate:" + strings.SplitN(shape, ":", 2)[0]
+		res.SetAdd("duplicate_shape", shape)
 		desc = fmt.Sprintf("NewFrom(%s)", in)
 		dpols := [][]ucfg.Option{nil, {ucfg.ReplaceValues}, {ucfg.AppendValues}}
 		dpol := dpols[r.Intn(len(dpols))]
@@ -255,6 +289,107 @@ func (check) Run(seed int64, tier string, idx int, verbose bool) harness.Result 
 				}
 			}
 			s, err := obs.Top(c)
+			if err != nil {
+				return "unpack-" + errClass(err)
+			}
+			return s
+		}}
+	case "merge-onto-references":
+		// the destination holds references to objects and lists (top level,
+		// nested, chained, in list elements); the source brings containers
+		// and primitives for the settings holding the references AND for the
+		// settings referenced, in one Merge call
+		obj := r.Intn(3) != 0
+		mkc := func(tag string) *model.Node {
+			if obj {
+				d := model.Dict().Set(tag, model.P(uint64(1+r.Intn(9))))
+				if r.Intn(3) == 0 {
+					d.Set("in", model.Dict().Set(tag, model.P("i")))
+				}
+				return d
+			}
+			return model.List(model.P(tag), model.P(uint64(r.Intn(9))))
+		}
+		a := model.Dict().Set("x", mkc("a")).Set("k", model.P("${x}"))
+		refKeys := []string{"k"}
+		if r.Intn(2) == 0 {
+			a.Set("n", model.Dict().Set("k", model.P("${x}")).Set("o", model.P("v")))
+			refKeys = append(refKeys, "n.k")
+		}
+		if r.Intn(2) == 0 {
+			a.Set("y", model.P("${k}"))
+			refKeys = append(refKeys, "y")
+		}
+		if r.Intn(3) == 0 {
+			a.Set("l", model.List(model.P("${x}"), model.P(uint64(5))))
+			refKeys = append(refKeys, "l.0")
+		}
+		if r.Intn(3) == 0 {
+			a.Set("x2", mkc("e")).Set("k2", model.P("${x2}"))
+			refKeys = append(refKeys, "k2")
+		}
+		b := model.Dict()
+		put := func(path string, v *model.Node) {
+			parts := strings.Split(path, ".")
+			cur := b
+			for i, p := range parts[:len(parts)-1] {
+				nx, ok := cur.D[p]
+				if !ok {
+					if parts[i+1] == "0" {
+						nx = model.List()
+					} else {
+						nx = model.Dict()
+					}
+					cur.Set(p, nx)
+				}
+				cur = nx
+			}
+			last := parts[len(parts)-1]
+			if last == "0" {
+				cur.A = append(cur.A, v)
+				cur.HasA = true
+			} else {
+				cur.Set(last, v)
+			}
+		}
+		n := 0
+		for _, k := range refKeys {
+			if r.Intn(3) != 0 {
+				switch r.Intn(5) {
+				case 0:
+					put(k, model.P("prim"))
+				case 1:
+					put(k, model.Nil())
+				default:
+					put(k, mkc("b"+k[:1]))
+				}
+				n++
+			}
+		}
+		if n == 0 {
+			put("k", mkc("b"))
+		}
+		if r.Intn(4) != 0 {
+			put("x", mkc("c"))
+		}
+		if _, ok := a.D["x2"]; ok && r.Intn(2) == 0 {
+			put("x2", mkc("f"))
+		}
+		pols := [][]ucfg.Option{nil, nil, {ucfg.ReplaceValues}, {ucfg.ReplaceArrValues}, {ucfg.AppendValues}, {ucfg.PrependValues}}
+		pi := r.Intn(len(pols))
+		pol := append([]ucfg.Option{ucfg.PathSep("."), ucfg.VarExp}, pols[pi]...)
+		desc = fmt.Sprintf("NewFrom(%s).Merge(%s) policy #%d, VarExp", a, b, pi)
+		needSchedules = maxKeys(b) >= 2
+		res.SetAdd("merge_onto_references", fmt.Sprintf("containers-are-objects=%v refs=%d source-keys=%d policy=%d", obj, len(refKeys), len(b.D), pi))
+		runs = map[string]runner{"Merge+Unpack": func(pr *rand.Rand) string {
+			c, err := ucfg.NewFrom(permGo(pr, a), ucfg.PathSep("."), ucfg.VarExp)
+			if err != nil {
+				return "newfrom-" + errClass(err)
+			}
+			if err := c.Merge(permGo(pr, b), pol...); err != nil {
+				return errClass(err)
+			}
+			s, err := obs.Top(c, ucfg.PathSep("."), ucfg.VarExp)
 			if err != nil {
 				return "unpack-" + errClass(err)
 			}
